@@ -27,7 +27,7 @@ def run(ctx):
     prog = ctx.prog
     ctx.rule("R1", "authenticate before dispatch; one forged key-phase bit cannot rotate the keys twice (C06-R1 and C06-R4 re-evaluated)")
     ctx.rule("R2", "no panic from the wire to the task (C03 R1/R2/R5/R8 obligations re-evaluated)")
-    ctx.rule("R4", "replayed packets are never accepted and packet numbers never reused (C10-R2/R4 and C07-R2 re-evaluated)")
+    ctx.rule("R4", "replayed packets are never accepted and packet numbers never reused (C10-R2/R4/R5 and C07-R2 re-evaluated)")
     ctx.rule("R5", "progress: lost data and a lost FIN are re-offered, completion consults the buffer, the loss-detection timer is "
                    "re-armed (C01-R1/R3/R4 and C13-R6 re-evaluated)")
     ctx.rule("R3", "lock-order acyclicity between distinct lock classes; no Package::dump acquires the congestion-controller lock")
@@ -38,7 +38,7 @@ def run(ctx):
     INHERIT = (
         ("C06", "R1", lambda o: o.rule in ("R1", "R4"), 8),
         ("C03", "R2", lambda o: o.rule in ("R1", "R2", "R5", "R8"), 8),
-        ("C10", "R4", lambda o: o.rule in ("R2", "R4"), 5),
+        ("C10", "R4", lambda o: o.rule in ("R2", "R4", "R5"), 6),
         ("C07", "R4", lambda o: o.rule in ("R2",), 20),
         ("C01", "R5", lambda o: o.rule in ("R1", "R3", "R4"), 20),
         ("C13", "R5", lambda o: o.rule in ("R6",), 3),
